@@ -351,6 +351,71 @@ def gen_stream(rng, geom, nblocks, maxblock, big=False, ringfill=False):
         prev = content
     return out
 
+def _ext(v):
+    o = bytearray()
+    while v >= 255:
+        o.append(255); v -= 255
+    o.append(v); return o
+
+def encode_seqs(seqs, last):
+    """independent encoder: seqs = [(literal bytes, offset, match length)], last = final literals"""
+    blk = bytearray()
+    for (lits, off, ml) in seqs:
+        ll = len(lits)
+        blk.append((min(ll, 15) << 4) | min(ml - 4, 15))
+        if ll >= 15: blk += _ext(ll - 15)
+        blk += lits
+        blk += bytes([off & 255, off >> 8])
+        if ml - 4 >= 15: blk += _ext(ml - 4 - 15)
+    blk.append(min(len(last), 15) << 4)
+    if len(last) >= 15: blk += _ext(len(last) - 15)
+    blk += last
+    return bytes(blk)
+
+def decode_seqs(hist, seqs, last):
+    out = bytearray(hist)
+    for (lits, off, ml) in seqs:
+        out += lits
+        for _ in range(ml):
+            out.append(out[-off])
+    out += last
+    return bytes(out[len(hist):])
+
+def gen_edge64k(rng):
+    """extchain stream aimed at the prefix-size thresholds of LZ4_decompress_safe_continue / _usingDict:
+    an external dictionary, then contiguous literal-only blocks summing to exactly P in 65533..65537 bytes,
+    then a block whose first match has an offset that reaches the last bytes of the dictionary (while P <= 65534),
+    the first byte of the prefix, or straddles both."""
+    dic = rng.randbytes(rng.choice([8, 64, 1000, 66000]))
+    P = rng.choice([65533, 65534, 65534, 65534, 65535, 65536, 65537])
+    parts = sorted(rng.sample(range(1, P), rng.choice([0, 1, 2])))
+    sizes = [b - a for a, b in zip([0] + parts, parts + [P])]
+    total = bytearray(dic)
+    out = []
+    for n in sizes:
+        content = rng.randbytes(n)
+        out.append({"hist": bytes(total[-65536:]), "blk": encode_seqs([], content), "content": content, "profile": "edge_lit"})
+        total += content
+    reach = min(65535, P + len(dic))
+    offs = sorted({o for o in (reach, reach - 1, P, P + 1, P - 1, 65535, 65534, 1, 7) if 1 <= o <= reach})
+    seqs = []
+    cur = bytearray(total)
+    for k in range(rng.choice([1, 2, 3])):
+        lits = b"" if k == 0 else rng.randbytes(rng.choice([0, 1, 5, 20]))
+        off = (reach if rng.random() < 0.7 else rng.choice(offs)) if k == 0 else (rng.choice(offs) if rng.random() < 0.5 else rng.choice([1, 2, 3, 8, 100]))
+        ml = rng.choice([4, 5, 8, 19, 33, 70, 300])
+        off = max(1, min(off, len(cur) + len(lits), 65535))
+        seqs.append((lits, off, ml))
+        cur += lits
+        for _ in range(ml):
+            cur.append(cur[-off])
+    last = rng.randbytes(rng.choice([12, 13, 40]))
+    content = decode_seqs(bytes(total), seqs, last)
+    out.append({"hist": bytes(total[-65536:]), "blk": encode_seqs(seqs, last), "content": content, "profile": "edge_match"})
+    # extchain takes the dictionary from the first block's history
+    out[0]["hist"] = dic
+    return out, max(len(b["content"]) for b in out)
+
 class Arena:
     """C buffers mirrored into the model's single arena address space"""
     def __init__(self):
